@@ -36,7 +36,7 @@ Proof.
   repeat sstep. sif; [sdone|].
   repeat sstep. sif; [sdone|].
   set (l := nth 1 (arr o) 0) in *. set (pl := nth 2 (arr o) 0) in *.
-  assert (8 + N.to_nat (pl / 8) <= len o)%nat.
+  assert (8 + N.to_nat ((pl + 7) / 8) <= len o)%nat.
   { unfold ri_len_ok in *.
     destruct (pl =? 0) eqn:?; [lia|].
     destruct (pl <? 65) eqn:?; [lia|].
